@@ -1,12 +1,14 @@
 package pure
 
 import (
-	"github.com/pion/turn/v5/internal/allocation"
 	"fmt"
 	"net"
 	"testing"
+	"time"
 
 	"github.com/pion/turn/v5"
+	"github.com/pion/turn/v5/internal/allocation"
+	"github.com/pion/turn/v5/internal/proto"
 	"github.com/pion/turn/v5/internal/zzverif/sim"
 	"github.com/pion/turn/v5/internal/zzverif/vkit"
 	"pgregory.net/rapid"
@@ -17,7 +19,23 @@ type C20Op struct {
 	Kind string `json:"kind"` // udp | tcp | close
 	Req  int    `json:"req,omitempty"`
 	Idx  int    `json:"idx,omitempty"`
+	// Mgr: the call is made the way the server makes it, through the allocation manager's
+	// CreateAllocation (which passes the requested port on to the generator)
+	Mgr bool `json:"mgr,omitempty"`
 }
+
+// nullPacketConn stands for the server's listening socket (nothing is relayed in this stage).
+type nullPacketConn struct{ net.PacketConn }
+
+func (nullPacketConn) WriteTo(b []byte, _ net.Addr) (int, error) { return len(b), nil }
+func (nullPacketConn) Close() error                              { return nil }
+func (nullPacketConn) LocalAddr() net.Addr {
+	return &net.UDPAddr{IP: net.IPv4(10, 0, 0, 1), Port: 3478}
+}
+
+type closerFunc func() error
+
+func (f closerFunc) Close() error { return f() }
 
 // C20Case is a generator configuration plus a history of allocate/close calls; also the replay.
 type C20Case struct {
@@ -133,6 +151,7 @@ func runC20Inner(c *C20Case) (string, string) { //nolint:cyclop,gocyclo,maintidx
 	tn.BindHook = func(_ string, _ net.IP, port int) { attempts = append(attempts, port) }
 	var live []*liveRes
 	var mgr *allocation.Manager
+	turnSock := nullPacketConn{}
 	evens := 0
 	_ = evens
 	busy := func(kind string, port int) bool {
@@ -150,7 +169,7 @@ func runC20Inner(c *C20Case) (string, string) { //nolint:cyclop,gocyclo,maintidx
 		return false
 	}
 	for oi, op := range c.Ops {
-		ctx := fmt.Sprintf("op %d (%s req=%d)", oi, op.Kind, op.Req)
+		ctx := fmt.Sprintf("op %d (%s req=%d mgr=%v)", oi, op.Kind, op.Req, op.Mgr)
 		if op.Kind == "close" {
 			if len(live) == 0 {
 				continue
@@ -212,7 +231,53 @@ func runC20Inner(c *C20Case) (string, string) { //nolint:cyclop,gocyclo,maintidx
 		var err error
 		var res *liveRes
 		conf := turn.AllocateListenerConfig{Network: netU, UserID: "u", Realm: "r", RequestedPort: op.Req}
-		if op.Kind == "udp" {
+		if op.Mgr {
+			if mgr == nil {
+				var merr error
+				mgr, merr = allocation.NewManager(allocation.ManagerConfig{
+					LeveledLogger: sim.NewLogger(0).NewLogger("c20"), AllocatePacketConn: gen.AllocatePacketConn,
+					AllocateListener: gen.AllocateListener, AllocateConn: gen.AllocateConn,
+				})
+				if merr != nil {
+					return "harness", merr.Error()
+				}
+				defer mgr.Close() //nolint:errcheck
+			}
+			ft := &allocation.FiveTuple{Protocol: allocation.UDP, SrcAddr: &net.UDPAddr{IP: net.IPv4(10, 1, 0, 1), Port: 20000 + oi}, DstAddr: &net.UDPAddr{IP: net.IPv4(10, 0, 0, 1), Port: 3478}}
+			pr, fam := proto.ProtoUDP, proto.RequestedFamilyIPv4
+			if op.Kind == "tcp" {
+				pr = proto.ProtoTCP
+			}
+			if c.V6 {
+				fam = proto.RequestedFamilyIPv6
+			}
+			var a *allocation.Allocation
+			a, err = mgr.CreateAllocation(ft, turnSock, pr, op.Req, time.Hour, "u", "r", fam)
+			if err == nil {
+				adv = a.RelayAddr
+				res = &liveRes{kind: op.Kind, cl: closerFunc(func() error { mgr.DeleteAllocation(ft); return nil })}
+				// the relay socket / listener is the one bound during this call
+				for _, s := range n.Socks()[socksBefore:] {
+					if !s.IsClosed() {
+						if res.sock != nil {
+							return "leak-on-success", fmt.Sprintf("%s: CreateAllocation left two new sockets open (%v and %v)", ctx, res.sock, s)
+						}
+						res.sock, res.port = s, s.Local().Port
+					}
+				}
+				for _, l := range n.Listeners()[lisBefore:] {
+					if !l.IsClosed() {
+						if res.lis != nil {
+							return "leak-on-success", fmt.Sprintf("%s: CreateAllocation left two new listeners open (%v and %v)", ctx, res.lis, l)
+						}
+						res.lis, res.port = l, l.TCPAddr().Port
+					}
+				}
+				if (op.Kind == "udp") != (res.sock != nil) || (op.Kind == "tcp") != (res.lis != nil) {
+					return "not-a-socket", fmt.Sprintf("%s: CreateAllocation succeeded (relay %v) but no %s relay endpoint was bound through the configured Net", ctx, adv, op.Kind)
+				}
+			}
+		} else if op.Kind == "udp" {
 			var pc net.PacketConn
 			pc, adv, err = gen.AllocatePacketConn(conf)
 			if err == nil {
@@ -400,7 +465,7 @@ func genC20(rt *rapid.T) *C20Case {
 			op.Idx = rapid.IntRange(0, 8).Draw(rt, "idx")
 		} else if op.Kind == "evenport" {
 			// (GetRandomEvenPort takes no argument)
-		} else if rapid.IntRange(0, 3).Draw(rt, "hasReq") == 0 {
+		} else if op.Mgr = rapid.IntRange(0, 3).Draw(rt, "viaManager") == 0; rapid.IntRange(0, 3).Draw(rt, "hasReq") == 0 {
 			if c.Gen == "range" && rapid.IntRange(0, 1).Draw(rt, "reqInRange") == 0 {
 				op.Req = rapid.IntRange(c.MinPort, c.MaxPort).Draw(rt, "req")
 			} else {
